@@ -6,6 +6,11 @@ HERE = os.path.dirname(os.path.abspath(__file__))
 
 # id -> (level, technique, text, note)   (only implemented checks are listed; the rest go to not_applicable)
 CHECKS = {
+    "C14": ("fault_enumeration",
+            "exhaustive enumeration of single structural faults (every reference occurrence re-pointed at every object / undefined / beyond-size number; every integer occurrence set to 8 boundary values), all pairs of re-wirings inside 9 structural fragments and 60 special structures, each walked completely in a worker process under 4 configurations",
+            "The fault space over the base documents is enumerated completely (not sampled): cycles through every followed field, self-containing object streams, /Prev loops, nesting to 200000, boundary numbers in every numeric field incl. encryption, predictor, xref and function parameters. Workers make stack overflow, abort, allocation failure (3 GiB limit) and hangs (10 s) observable and attributable to one case.",
+            "Trusted: the walker reaches the entry points named by the property; thresholds for 'out of proportion' are fixed (10 s / 3 GiB for ~10 KB files). Faults beyond two simultaneous re-wirings are not enumerated.",
+            "§5 C14"),
     "C13": ("model_checking",
             "stateless model checking of real threads under a controlled (baton-passing) scheduler: every interleaving at the resolver's and the cache's synchronisation points up to a preemption bound (iterative context bounding), executed in worker processes, compared with sequential answers",
             "2-3 real threads run 1-3 load calls each on one open document (shared resolver or one each; no caches or instrumented compute-once caches); every schedule with <=2 (quick) / <=3 (thorough) preemptions for 2 threads and <=1 / <=2 for 3 threads is executed; oracle: every answer equals the call run alone, no panic, no deadlock (no enabled thread while some are blocked), no process abort, resolver usable afterwards; failing schedules are replayed and must reproduce; replay divergence is a machinery error.",
